@@ -4,6 +4,7 @@ package harness
 // exported getters and the bank keeper. Integers as decimal strings, Dec as raw 10^18 integers.
 
 import (
+	stakingtypes "github.com/cosmos/cosmos-sdk/x/staking/types"
 	"sort"
 
 	"cosmossdk.io/math"
@@ -37,6 +38,26 @@ func coinsArr(cs sdk.Coins) [][]string {
 	}
 	sort.Slice(out, func(i, j int) bool { return out[i][0] < out[j][0] })
 	return out
+}
+
+// observeDistr: the inputs and the output of the begin-block fee allocation (x/estaking/modules/distribution): community tax,
+// the tokens of every fee-sharing validator in iteration order, the community pool.
+func (w *World) observeDistr() J {
+	app, ctx := w.App, w.Ctx()
+	tax, _ := app.DistrKeeper.GetCommunityTax(ctx)
+	cp := [][]string{}
+	if fp, err := app.DistrKeeper.FeePool.Get(ctx); err == nil {
+		for _, c := range fp.CommunityPool {
+			cp = append(cp, []string{c.Denom, decRaw(c.Amount)})
+		}
+	}
+	vt := []string{}
+	_ = app.EstakingKeeper.IterateBondedValidatorsByPower(ctx, func(_ int64, v stakingtypes.ValidatorI) bool {
+		vt = append(vt, v.GetTokens().String())
+		return false
+	})
+	usdc, _ := app.AssetprofileKeeper.GetUsdcDenom(ctx)
+	return J{"tax": decRaw(tax), "communityPool": cp, "valTokens": vt, "usdc": usdc}
 }
 
 func (w *World) Observe() J {
@@ -199,6 +220,7 @@ func (w *World) Observe() J {
 			"keys": app.MasterchefKeeper.GetRewardDenoms(ctx, pi.PoolId)})
 	}
 	st["masterchef"] = J{"users": ur, "pools": pr, "denomLists": rdl}
+	st["distr"] = w.observeDistr()
 
 	// tradeshield
 	so := []J{}
